@@ -160,43 +160,56 @@ def impactAmountWithCap (o : Ops α) (tokenPrice impactUsd impactPool : α) : Ex
 /-- `MarketUtils.usdToMarketTokenAmount`: `supply * usd / poolValue` -/
 def usdToGm (o : Ops α) (usd poolValue supply : α) : Except Err α := fdiv o (supply * usd) poolValue
 
+/-- `calc_token_amount`, positive-impact part: GM minted from the impact pool (`mintAmount = 0; mintAmount += …`), and
+    whether the cap applied; `(0, false)` when the impact is not positive -/
+def positiveImpactMint (o : Ops α) (ps : Pool α) (priceOut impact : α) : Except Err (α × Bool) :=
+  if impact > 0 then do
+    let (posAmt, capped) ← impactAmountWithCap o priceOut impact ps.impactPool
+    let m ← usdToGm o (posAmt * priceOut) ps.poolValue ps.supply
+    pure ((0 : α) + m, capped)
+  else pure ((0 : α), false)
+
+/-- `calc_token_amount`, negative-impact part: `fees.amountAfterFees -= -negativeImpactAmount`; the contract subtracts
+    from a uint256, so a negative impact larger than the deposit reverts (repaired code raises RuntimeError) -/
+def afterNegativeImpact (o : Ops α) (ps : Pool α) (priceIn after impact : α) : Except Err α :=
+  if impact < 0 then do
+    let (negAmt, _) ← impactAmountWithCap o priceIn impact ps.impactPool
+    let after' := after - (-negAmt)
+    if after' < 0 then throw .runtime else pure after'
+  else pure after
+
 /-- `ExecuteDepositUtils.calc_token_amount`: minted GM, fee amount, whether the positive impact was capped -/
 def calcTokenAmount (o : Ops α) (cfg : Config α) (ps : Pool α) (priceIn priceOut amount impact : α) :
     Except Err (α × α × Bool) := do
   let feeFactor := if impact > 0 then cfg.depositFeePos else cfg.depositFeeNeg
   let fee := feeFactor * amount
-  let after := amount - fee
-  let (mint, capped) ←
-    if impact > 0 then do
-      let (posAmt, capped) ← impactAmountWithCap o priceOut impact ps.impactPool
-      let m ← usdToGm o (posAmt * priceOut) ps.poolValue ps.supply
-      pure ((0 : α) + m, capped)
-    else pure ((0 : α), false)
-  let after ←
-    if impact < 0 then do
-      let (negAmt, _) ← impactAmountWithCap o priceIn impact ps.impactPool
-      pure (after - (-negAmt))
-    else pure after
+  let (mint, capped) ← positiveImpactMint o ps priceOut impact
+  let after ← afterNegativeImpact o ps priceIn (amount - fee) impact
   let m2 ← usdToGm o (after * priceIn) ps.poolValue ps.supply
   pure (mint + m2, fee, capped)
+
+/-- one side of `get_mint_amount` (`if amount > 0:`): `none` when nothing of this token is deposited -/
+def sidePart (o : Ops α) (cfg : Config α) (ps : Pool α) (priceIn priceOut amount usd totalUsd impact : α) :
+    Except Err (Option (α × α × Bool)) :=
+  if amount > 0 then do
+    let share ← fdiv o (impact * usd) totalUsd
+    let r ← calcTokenAmount o cfg ps priceIn priceOut amount share
+    pure (some r)
+  else pure none
 
 /-- `ExecuteDepositUtils.get_mint_amount`; the string is the branch tag -/
 def mintAmount (o : Ops α) (cfg : Config α) (ps : Pool α) (longAmt shortAmt : α) : Except Err (LPResult α × String) := do
   let longUsd := longAmt * ps.longPrice
   let shortUsd := shortAmt * ps.shortPrice
   let (impact, tag) ← priceImpactUsd o cfg ps longUsd shortUsd
-  let (gm1, longFee, feeUsd1, cap1) ←
-    if longAmt > 0 then do
-      let share ← fdiv o (impact * longUsd) (longUsd + shortUsd)
-      let (m, f, c) ← calcTokenAmount o cfg ps ps.longPrice ps.shortPrice longAmt share
-      pure ((0 : α) + m, f, (0 : α) + f * ps.longPrice, c)
-    else pure ((0 : α), (0 : α), (0 : α), false)
-  let (gm2, shortFee, feeUsd2, cap2) ←
-    if shortAmt > 0 then do
-      let share ← fdiv o (impact * shortUsd) (longUsd + shortUsd)
-      let (m, f, c) ← calcTokenAmount o cfg ps ps.shortPrice ps.longPrice shortAmt share
-      pure (gm1 + m, f, feeUsd1 + f * ps.shortPrice, c)
-    else pure (gm1, (0 : α), feeUsd1, false)
+  let lp ← sidePart o cfg ps ps.longPrice ps.shortPrice longAmt longUsd (longUsd + shortUsd) impact
+  let sp ← sidePart o cfg ps ps.shortPrice ps.longPrice shortAmt shortUsd (longUsd + shortUsd) impact
+  let (gm1, longFee, feeUsd1, cap1) := match lp with
+    | some (m, f, c) => ((0 : α) + m, f, (0 : α) + f * ps.longPrice, c)
+    | none => ((0 : α), (0 : α), (0 : α), false)
+  let (gm2, shortFee, feeUsd2, cap2) := match sp with
+    | some (m, f, c) => (gm1 + m, f, feeUsd1 + f * ps.shortPrice, c)
+    | none => (gm1, (0 : α), feeUsd1, false)
   let gmPrice ← fdiv o ps.poolValue ps.supply
   pure ({ longAmount := longAmt, shortAmount := shortAmt, totalUsd := longUsd + shortUsd, gmAmount := gm2,
           gmUsd := gm2 * gmPrice, longFee := longFee, shortFee := shortFee, feeUsd := feeUsd2, priceImpactUsd := impact },
